@@ -10,3 +10,9 @@ open Just.Props.C13
 #print axioms unrecorded_signal_is_forgotten
 #print axioms recorded_signal_stops
 #print axioms signals_match_source
+#print axioms afterChild_running
+#print axioms step_exit_inv
+#print axioms afterChild_doomed
+#print axioms afterChild_spawned
+#print axioms step_doomed
+#print axioms run_doomed
